@@ -840,10 +840,27 @@ Qed.
 Ltac neutral := apply inv1_neutral; [intro th; repeat split | auto].
 Ltac hr_neutral := apply head_run_neutral; [intro th; repeat split | auto].
 
+Lemma inv1_wait_all_op : forall progs s v c f, Inv1 s -> head_run s v -> Inv1 (wait_all_op progs s v c f).
+Proof.
+  intros progs s v c f I Hr. unfold wait_all_op, getth.
+  assert (W : Inv1 (wait_check progs s v c f)).
+  { unfold wait_check, getth, getvc. destruct (wait_cond s v); [|now apply inv1_ret].
+    destruct (v_sleepq (s_vc s v)).
+    - apply inv1_yield; [now apply inv1_setk|]. unfold setk. hr_neutral.
+    - destruct (expired _ _).
+      + apply inv1_yield; [now apply inv1_setk|]. unfold setk. hr_neutral.
+      + destruct (lock_free _); auto.
+        apply inv1_do_sleep; [now apply inv1_setk|]. unfold setk. hr_neutral. }
+  destruct (Nat.eqb c v); [|destruct f; [apply (inv1_same s); auto|now apply inv1_ret]].
+  destruct (th_k (s_th s c)) as [|[|[|k]]]; auto.
+  - pose proof (inv1_sen s c I) as X. destruct (set_error_number s c) as [[s1 r] e]. cbn in X. now apply inv1_setk.
+  - now apply inv1_setk.
+Qed.
+
 Lemma inv1_exec_op : forall progs s v c o, Inv1 s -> head_run s v -> Inv1 (exec_op progs s v c o).
 Proof.
   intros progs s v c o I Hr. unfold exec_op, getth, getvc.
-  destruct o as [d| |j e|j jn ws|j| | |j|j u].
+  destruct o as [d| |j e|j jn ws|j| | |j|j u| |]; try now apply inv1_wait_all_op.
   - (* usleep *)
     destruct (th_k (s_th s c)) as [|[|k]].
     + destruct (expired _ _).
@@ -941,9 +958,9 @@ Qed.
 
 Lemma inv1_step : forall progs s l, Inv1 s -> Inv1 (step progs s l).
 Proof.
-  intros progs s l I. unfold step. destruct (s_stuck s); auto.
+  intros progs s l I. unfold step. destruct (s_stuck s); auto. destruct (frozen _ _ _); auto.
   destruct l as [v|v|v|v u t|d].
-  - destruct (Nat.ltb _ _); auto. now apply inv1_step_vcpu.
+  - destruct (Nat.ltb _ _); auto. destruct (pend_to_offline _ _ _); [apply (inv1_same s); auto|]. now apply inv1_step_vcpu.
   - destruct (_ && _); auto. now apply inv1_do_drain.
   - destruct (_ && _); auto. now apply inv1_do_resume.
   - destruct (_ && _); auto. now apply inv1_do_steal.
